@@ -5,6 +5,15 @@ CLAIMED = {
  'C05': dict(technique='exhaustive stack-depth and balance analysis of the T0 bytecode with native effects derived from the run function IR; struct layouts from debug info',
              text='Static: for all seven T0 interpreters (X.509 minimal/decoder, private/public key decoders, PEM, client and server handshake) the maximum data and return stack depth over every path of every word fits the context arrays, every join is balanced, the call graph is acyclic and the stack pointers are initialised to the arrays. Decides VM stack safety for every input; does not decide the C code of native words.',
              note='Trusted: clang 14 IR, irdump, sa/t0.py decoder; the interpreter skeleton is re-derived from IR (exit 2 if unrecognised). LP64 layouts.'),
+ 'C11': dict(technique='constant tables vs values generated from SEC 2 / RFC 7748 + hypothesis folding of rejection obligations + must-conjunct dataflow',
+             text='Static: curve constants of every EC implementation equal standard-derived values (self-checked reference: generators on curve, n*G = O); invalid coordinates, off-curve points, r/s range, s = 0 and failed point arithmetic force the failure return in prime_i15/i31 and both ECDSA verifiers. Does not decide the group law or scalar multiplication values.',
+             note='Trusted: reference constants and encoders in sa/tab.py, clang/opt 14, obligation table in sa/checks/c11.py.'),
+ 'C12': dict(technique='constant tables and immediates vs values generated from FIPS 197 / RFC 8439; class-descriptor and vtable-wiring agreement across sibling implementations',
+             text='Static: AES S-box, inverse S-box, Rcon and MixColumns-merged tables, ChaCha20 constants and rotation amounts, Poly1305 modulus/clamp equal generated standard values; every block-cipher class descriptor has the right geometry and its slots point into its own implementation family. Does not decide bitsliced circuits, key schedules or mode logic.',
+             note='Trusted: generators in sa/tab.py, clang 14 constant folding. DES merged tables are not covered (implementation-specific layout).'),
+ 'C13': dict(technique='constant tables vs values generated from RFC 1321 / FIPS 180-4, descriptor words vs specification-derived geometry, PRF call-shape (label, seed order) from the IR',
+             text='Static: IVs, round constants, MD5 schedule, digest OIDs and the id->OID map, every br_hash_class descriptor word and context size, and the TLS master-secret / key-expansion PRF call shapes (label string, seed order, lengths) equal their standards. Does not decide compression functions or streaming logic.',
+             note='Trusted: generators in sa/tab.py (exact integer arithmetic), clang 14 constant folding.'),
  'C10': dict(technique='hypothesis folding (LLVM constant/range propagation under an added assumption) + must-conjunct dataflow on SSA, per implementation, with negative controls',
              text='Static: each listed validity result / length condition of the RSA public, private, verify, decrypt, unpad and key-derivation functions (i15, i31, i32, i62), when it signals failure, forces the failure return on every path; each padding-structure contribution is a conjunct of the verdict (loop-aware must-dataflow). Decides rejection discipline, not arithmetic correctness.',
              note='Trusted: clang/opt 14, the obligation table (sa/checks/c10.py), debug-info variable names as site selectors. Host configuration only in quick tier.'),
@@ -31,7 +40,8 @@ m = dict(
  engines=[
   dict(name='IRF', path='tools/irdump.cc, sa/irf.py, sa/build.py', serves_properties=sorted(CLAIMED), kind_free_text='LLVM-IR facts (CFG, SSA, debug-info layouts) for every unit of the real build'),
   dict(name='T0', path='sa/t0.py', serves_properties=['C05'], kind_free_text='decoder + analyses for the T0 bytecode embedded in the generated interpreters'),
-  dict(name='FOLD', path='sa/fold.py, sa/oblig.py', serves_properties=['C10'], kind_free_text='hypothesis folding with opt-14 as abstract interpreter; must-conjunct dataflow'),
+  dict(name='TAB', path='sa/tab.py', serves_properties=['C11', 'C12', 'C13'], kind_free_text='constants lifted from IR vs references generated from the standards'),
+  dict(name='FOLD', path='sa/fold.py, sa/oblig.py', serves_properties=['C10', 'C11'], kind_free_text='hypothesis folding with opt-14 as abstract interpreter; must-conjunct dataflow'),
  ],
  checks=[dict(property_id=p, quick_cmd='./check %s --tier quick' % p, thorough_cmd='./check %s --tier thorough' % p,
               evidence_file='evidence/%s.json' % p, replay_cmd_template='./check replay {path}', engine='sa/checks/%s.py' % p.lower(),
